@@ -45,7 +45,9 @@ def deep_doc(n):
 
 DOCS = {
     "ascii": [{"k": [{"a": 1}, {"a": 2, "b": "xb"}, {"a": "ab"}], "a": [1, 2.5, None, True], "s": "b"}, [1, "ab", {"a": [{"a": 3}]}]],
-    "nonascii": [{"k": [{"a": "é"}, {"a": "😀b"}, {"a": 7}], "a": "ü ", "ñ": {"a": "b"}}],
+    "nonascii": [{"k": [{"a": "é"}, {"a": "😀b"}, {"a": 7}], "a": "ü ", "ñ": {"a": "b"}},
+                 # valid JSON may carry an unpaired surrogate escape
+                 b'{"k": [{"a": "x\\ud83dy"}, {"a": "\\u00e9"}], "a": "\\udc00b"}'],
     "deep": [deep_doc(60)],      # container nesting 122 > default max_recursion_depth 100
     "badjson": [b'{"k": [1, 2', b"nope", b""],
     "badutf8": [b'{"a": "\xff\xfe"}', b'["\xc3\x28"]'],
@@ -53,7 +55,7 @@ DOCS = {
 
 
 def doc_bytes(dclass, doc, rng):
-    if dclass in ("badjson", "badutf8"):
+    if isinstance(doc, bytes):
         return doc
     return json.dumps(doc, ensure_ascii=rng.random() < 0.5).encode("utf-8")
 
@@ -82,12 +84,12 @@ def run_inprocess(jp, argv, stdin_bytes):
     return status, out.getvalue(), err.getvalue(), tb
 
 
-def run_subprocess(argv, stdin_bytes):
-    env = dict(os.environ, PYTHONPATH=core.REPO, PYTHONDONTWRITEBYTECODE="1", PYTHONIOENCODING="utf-8")
+def run_subprocess(argv, stdin_bytes, ioenc="utf-8"):
+    env = dict(os.environ, PYTHONPATH=core.REPO, PYTHONDONTWRITEBYTECODE="1", PYTHONIOENCODING=ioenc)
     p = subprocess.run(["/venv/bin/python", "-m", "jsonpath_rfc9535"] + argv, input=stdin_bytes, capture_output=True, env=env,
                        timeout=60, cwd=core.REPO)
     err = p.stderr.decode("utf-8", "replace")
-    return p.returncode, p.stdout.decode("utf-8", "replace"), err, "Traceback (most recent call last)" in err
+    return p.returncode, p.stdout.decode("utf-8", "surrogatepass" if ioenc == "utf-8" else "replace"), err, "Traceback (most recent call last)" in err
 
 
 def run(chk: core.Check, tier: str, seed: int) -> None:
@@ -130,10 +132,12 @@ def run(chk: core.Check, tier: str, seed: int) -> None:
         if c["sink"] == "file":
             of = os.path.join(tmp, f"o{k}.json")
             argv += ["-o", of]
-        use_sub = tier != "quick" or rng.random() < 0.08
+        # real output streams encode: non-ASCII documents always go through a subprocess, half of them
+        # with an ASCII-only stdout (a terminal in the C locale)
+        use_sub = tier != "quick" or rng.random() < 0.08 or (c["d"] == "nonascii" and (isinstance(doc, bytes) or rng.random() < 0.5))
         if use_sub:
             n_sub += 1
-            status, out, err, tb = run_subprocess(argv, stdin_bytes)
+            status, out, err, tb = run_subprocess(argv, stdin_bytes, "ascii" if (c["d"] == "nonascii" and c["dsrc"] == "file" and k % 2) else "utf-8")
         else:
             status, out, err, tb = run_inprocess(jp, argv, stdin_bytes)
         written = out
@@ -141,7 +145,7 @@ def run(chk: core.Check, tier: str, seed: int) -> None:
             # flush/close whatever argparse opened
             import gc  # noqa: PLC0415
             gc.collect()
-            written_file = open(of, encoding="utf-8").read() if os.path.exists(of) else ""
+            written_file = open(of, encoding="utf-8", errors="surrogatepass").read() if os.path.exists(of) else ""
         # ---- compare with the model's terminal state -------------------------------
         problems = []
         want_zero = g["status"] == "zero"
